@@ -258,6 +258,45 @@ Definition close_ok (comma : bool) (name v : str) (os : list op) : bool :=
   | None => true
   end.
 
+(** * A3. Sessions without a reformat request: [agree] is the plain comparison *)
+
+Definition agree0 (comma : bool) (pre name value post : string) (ops : list cop)
+           (o_read : result (list string)) (o_ops : list oobs) (o_close : option err) (o_dump : string)
+           (o_reread o_again : result (list string)) : bool :=
+  let k := lk comma in
+  let r := run_session k (dec name) (dec value) (map op_of ops) in
+  result_eqb strs_eqb (sr_read r) (res_strs o_read)
+  && list_eqb2 outcome_eqb (sr_ops r) o_ops
+  && option_eqb err_eqb (sr_close r) o_close
+  && str_eqb (doc_of (dec pre) (dec name) (sr_value r) (dec post)) (dec o_dump)
+  && result_eqb strs_eqb (read_of k (sr_value r)) (res_strs o_reread)
+  && result_eqb strs_eqb (read_of k (sr_value r)) (res_strs o_again).
+
+Lemma model_ops_plain ops : reformatting ops = false -> model_ops ops = map op_of ops.
+Proof.
+  unfold reformatting, model_ops. induction ops as [|o ops IH]; [reflexivity|]. cbn [existsb filter].
+  intros H. apply orb_false_iff in H as [H1 H2]. rewrite H1. cbn [negb map]. now rewrite IH.
+Qed.
+
+Lemma expand_plain ops : reformatting ops = false -> forall outs cur, expand ops outs cur = outs.
+Proof.
+  unfold reformatting. induction ops as [|o ops IH]; [reflexivity|]. cbn [existsb expand].
+  intros H outs cur. apply orb_false_iff in H as [H1 H2]. rewrite H1.
+  destruct outs as [|[vals g|e] outs]; [reflexivity| |]; now rewrite IH.
+Qed.
+
+Lemma run_session_plain k name value os : run_session_r false k name value os = run_session k name value os.
+Proof. reflexivity. Qed.
+
+Lemma agree_plain comma pre name value post ops o_read o_ops o_close o_dump o_valid o_reread o_again :
+  reformatting ops = false ->
+  agree (CView comma pre name value post ops o_read o_ops o_close o_dump o_valid o_reread o_again)
+  = agree0 comma pre name value post ops o_read o_ops o_close o_dump o_reread o_again.
+Proof.
+  intros H. unfold agree, agree0. cbv zeta. rewrite H, (model_ops_plain ops H), run_session_plain.
+  cbn [andb]. destruct (sr_read _); now rewrite ?(expand_plain ops H).
+Qed.
+
 (** * B. The walk of [holds] along a session of the model, generically in the list kind *)
 
 Section Walk.
@@ -339,13 +378,15 @@ Section Walk.
 
   Lemma view_holds pre name value post ops o_read o_ops o_close o_dump o_valid o_reread o_again :
     value_ok (dec value) = true -> closed_value (dec value) = true -> name_ok (dec name) = true ->
+    reformatting ops = false ->
     forallb vop (map op_of ops) = true -> o_valid = true ->
     close_ok comma (dec name) (dec value) (map op_of ops) = true ->
     agree (CView comma pre name value post ops o_read o_ops o_close o_dump o_valid o_reread o_again) = true ->
     holds (CView comma pre name value post ops o_read o_ops o_close o_dump o_valid o_reread o_again) = true.
   Proof.
-    intros Hv Hcv Hname Hos Hvalid Hclose Ha.
-    cbn [agree holds] in *. cbv zeta in *. rewrite Hv. cbn [negb].
+    intros Hv Hcv Hname Hnr Hos Hvalid Hclose Ha.
+    rewrite (agree_plain _ _ _ _ _ _ _ _ _ _ o_valid _ _ Hnr) in Ha. unfold agree0 in Ha.
+    cbn [holds] in *. cbv zeta in *. rewrite Hv. cbn [negb].
     unfold close_ok, final_values in Hclose. rewrite <- k_comma in *.
     set (v := dec value) in *. set (os := map op_of ops) in *. set (nm := dec name) in *.
     destruct (Inv_init v Hv Hcv) as (vw & phi & Hi & HI & Hvals & Hch).
@@ -429,6 +470,9 @@ Definition view_holds_comma :=
     dump has no error element), an observation [agree] never looks at.  [judged c], for a [CView]
     case inside [value_ok]:
     - [o_valid] itself;
+    - the session makes no reformat request ([reformatting ops = false]): for a reformatting
+      session the text written back is the formatter's, which the model does not contain, so
+      neither the re-read list nor the close outcome of the implementation is determined by it;
     - [closed_value v], [name_ok name], and every operation is one of append / remove / replace /
       snapshot / ref.value / ref.value = x / ref.remove() bringing in good values only ([value_op]
       resp. [value_op_c]): the hypotheses of theorems 5 / 7.  append_separator / append_newline /
@@ -446,8 +490,8 @@ Definition judged (c : case) : bool :=
       let v := dec value in
       let os := map op_of ops in
       negb (value_ok v)
-      || (closed_value v && name_ok (dec name) && forallb (vop_of comma) os && o_valid
-          && close_ok comma (dec name) v os)
+      || (closed_value v && name_ok (dec name) && negb (reformatting ops)
+          && forallb (vop_of comma) os && o_valid && close_ok comma (dec name) v os)
   | _ => true
   end.
 
@@ -457,8 +501,8 @@ Proof.
                 | | | | | |]; try reflexivity.
   intros Hj Ha. cbn [judged] in Hj. cbv zeta in Hj.
   destruct (value_ok (dec value)) eqn:Hv.
-  - cbn [negb orb] in Hj. rewrite !andb_true_iff in Hj. destruct Hj as [[[[Hc Hn] Hos] Hval] Hcl].
-    destruct comma; cbn [vop_of] in Hos.
+  - cbn [negb orb] in Hj. rewrite !andb_true_iff in Hj. destruct Hj as [[[[[Hc Hn] Hnr] Hos] Hval] Hcl].
+    apply negb_true_iff in Hnr. destruct comma; cbn [vop_of] in Hos.
     + now apply view_holds_comma.
     + now apply view_holds_space.
   - cbn [holds]. cbv zeta. now rewrite Hv.
@@ -688,7 +732,8 @@ Definition judged_text (c : case) : bool :=
       let v := dec value in
       let os := map op_of ops in
       negb (value_ok v)
-      || (negb (ends_on_comment v) && name_ok (dec name) && forallb (vop_of comma) os && o_valid)
+      || (negb (ends_on_comment v) && name_ok (dec name) && negb (reformatting ops)
+          && forallb (vop_of comma) os && o_valid)
   | _ => true
   end.
 
@@ -697,8 +742,8 @@ Proof.
   destruct c as [comma pre name value post ops o_read o_ops o_close o_dump o_valid o_reread o_again
                 | | | | | |]; try reflexivity.
   cbn [judged_text judged]. cbv zeta. destruct (value_ok (dec value)) eqn:Hv; [|reflexivity].
-  cbn [negb orb]. rewrite !andb_true_iff. intros [[[He Hn] Hos] Hval]. apply negb_true_iff in He.
-  rewrite (ends_on_comment_closed _ He), Hn, Hos, Hval. repeat split.
+  cbn [negb orb]. rewrite !andb_true_iff. intros [[[[He Hn] Hnr] Hos] Hval]. apply negb_true_iff in He.
+  rewrite (ends_on_comment_closed _ He), Hn, Hnr, Hos, Hval. repeat split.
   destruct comma; cbn [vop_of] in Hos; [now apply close_ok_comma|now apply close_ok_space].
 Qed.
 
